@@ -185,13 +185,15 @@ static int unhex(const char *h, char **out, size_t *outlen) {
   if (n == 1 && h[0] == '-')
     n = 0;
   char *b = malloc(n / 2 + 1);
-  for (size_t i = 0; i + 1 < n + 1 && i < n; i += 2) {
-    unsigned v;
-    if (sscanf(h + i, "%2x", &v) != 1) {
+  for (size_t i = 0; i + 1 < n; i += 2) {
+    int hi = h[i], lo = h[i + 1];
+    hi = hi <= '9' ? hi - '0' : (hi | 32) - 'a' + 10;
+    lo = lo <= '9' ? lo - '0' : (lo | 32) - 'a' + 10;
+    if ((hi | lo) & ~15) {
       free(b);
       return -1;
     }
-    b[i / 2] = (char)v;
+    b[i / 2] = (char)(hi << 4 | lo);
   }
   b[n / 2] = 0;
   *out = b;
